@@ -3,6 +3,8 @@
 package probe
 
 import (
+	"github.com/nspcc-dev/neo-go/pkg/interop"
+	"github.com/nspcc-dev/neo-go/pkg/interop/contract"
 	"github.com/nspcc-dev/neo-go/pkg/interop/native/management"
 	"github.com/nspcc-dev/neo-go/pkg/interop/runtime"
 	"github.com/nspcc-dev/neo-go/pkg/interop/storage"
@@ -29,6 +31,23 @@ func NewEpoch(epoch int) {
 	storage.Put(ctx, "calls", n+1)
 	storage.Put(ctx, "last", epoch)
 	runtime.Notify("Tick", storage.Get(ctx, "id").(int), epoch)
+	// armed: call back into the notifier once, from inside the callback
+	if t := storage.Get(ctx, "reenter"); t != nil {
+		d := storage.Get(ctx, "delta").(int)
+		storage.Delete(ctx, "reenter")
+		contract.Call(t.(interop.Hash160), "newEpoch", contract.All, epoch+d)
+	}
+}
+
+// SetReenter arms (or disarms) the probe: its next accepted callback calls newEpoch(epoch+delta) on target, once.
+func SetReenter(target interop.Hash160, delta int, on bool) {
+	ctx := storage.GetContext()
+	if on {
+		storage.Put(ctx, "reenter", target)
+		storage.Put(ctx, "delta", delta)
+	} else {
+		storage.Delete(ctx, "reenter")
+	}
 }
 
 // SetReject switches the rejecting mode.
